@@ -46,12 +46,104 @@ def cases(tier, rng):
     for _ in range(n):
         src, _ = gen.random_program(rng.fork())
         out.append(("random", src))
+    for _ in range(600 if tier == "quick" else 15000):
+        out.append(("fragment", frag_program(rng.fork())))
     return out
+
+
+def frag_program(rng):
+    """programs INSIDE the fragment the simulation theorem covers (integers, booleans, global variables, functions with
+    parameters and locals, recursion, als/zolang as statements and as values, stop/volgende in statement position,
+    antwoord from loops and branches): the theorem and the correspondence meet on these"""
+    lines = ["stel g0 = %d; stel g1 = %d;" % (rng.below(9), rng.below(9))]
+    fns = []
+
+    def ex(vis, d):
+        """integer-valued expression (a deliberate type or arity slip now and then, for the error paths)"""
+        c = rng.below(16)
+        if d == 0 or c < 3:
+            return rng.pick(vis) if vis and rng.chance(2, 3) else str(rng.below(30))
+        if c < 6 and fns:
+            f, n = rng.pick(fns)
+            k = n if rng.chance(9, 10) else rng.pick([max(0, n - 1), n + 1, n + 4])
+            return "%s(%s)" % (f, ", ".join(ex(vis, d - 1) for _ in range(k)))
+        if c == 6:
+            return "als %s { %s } anders { %s }" % (cond(vis, d - 1), ex(vis, d - 1), ex(vis, d - 1))
+        if c == 7 and vis:
+            return "(%s = %s)" % (rng.pick(vis), ex(vis, d - 1))
+        if c == 8:
+            return "-%s" % ex(vis, 0)
+        if c == 9 and rng.chance(1, 6):
+            return cond(vis, d - 1)          # a boolean where an integer is expected
+        if c == 10:
+            return "(%s %s %s)" % (ex(vis, d - 1), rng.pick(["/", "%"]), rng.pick(["1", "2", "3", "7", ex(vis, d - 1)]))
+        return "(%s %s %s)" % (ex(vis, d - 1), rng.pick(["+", "-", "*", "+", "-"]), ex(vis, d - 1))
+
+    def cond(vis, d):
+        c = rng.below(8)
+        if c == 0:
+            return rng.pick(["ja", "nee"])
+        if c == 1 and d > 0:
+            return "!%s" % cond(vis, d - 1)
+        if c == 2 and d > 0:
+            return "(%s %s %s)" % (cond(vis, d - 1), rng.pick(["&&", "||", "==", "!="]), cond(vis, d - 1))
+        return "(%s %s %s)" % (ex(vis, max(d - 1, 0)), rng.pick(["<", "<=", ">", ">=", "==", "!="]), ex(vis, max(d - 1, 0)))
+
+    def body(vis, ind, d, in_fn, in_loop):
+        out = []
+        vis = list(vis)
+        for _ in range(rng.range(1, 4)):
+            c = rng.below(10)
+            if c < 2:
+                n = "l%d" % len(vis)
+                out.append(ind + "stel %s = %s;" % (n, ex(vis, 2)))
+                vis.append(n)
+            elif c == 2 and vis:
+                out.append(ind + "%s = %s;" % (rng.pick(vis), ex(vis, 2)))
+            elif c == 3 and d < 3:
+                out.append(ind + "als %s {" % cond(vis, 2))
+                out += body(vis, ind + "  ", d + 1, in_fn, in_loop)
+                out.append(ind + "} anders {")
+                out += body(vis, ind + "  ", d + 1, in_fn, in_loop)
+                out.append(ind + "};")
+            elif c == 4 and d < 3:
+                i = "i%d" % len(vis)
+                out.append(ind + "stel %s = 0;" % i)
+                out.append(ind + "zolang %s < %d {" % (i, rng.range(0, 5)))
+                out.append(ind + "  %s = %s + 1;" % (i, i))
+                out += body(vis + [i], ind + "  ", d + 1, in_fn, True)
+                out.append(ind + "};")
+                vis.append(i)
+            elif c == 5 and in_loop:
+                out.append(ind + "als %s { %s };" % (cond(vis, 1), rng.pick(["stop", "volgende"])))
+            elif c == 6 and in_fn:
+                out.append(ind + "als %s { antwoord %s };" % (cond(vis, 1), ex(vis, 1)))
+            elif c == 7 and d < 3:
+                out.append(ind + "{")
+                out += body(vis, ind + "  ", d + 1, in_fn, in_loop)
+                out.append(ind + "};")
+            else:
+                out.append(ind + ex(vis, 3) + ";")
+        return out
+
+    for k in range(rng.range(1, 4)):
+        ps = ["p%d" % i for i in range(rng.below(4))]
+        if rng.chance(1, 3):
+            lines.append("functie rec%d(n, acc) { als n < 1 { antwoord acc }; rec%d(n - 1, acc + n) };" % (k, k))
+            fns.append(("rec%d" % k, 2))
+        b = body(ps + ["g0", "g1"], "  ", 1, True, False)
+        form = rng.below(3)
+        head = "functie f%d(%s) {" % (k, ", ".join(ps)) if form < 2 else "stel f%d = functie(%s) {" % (k, ", ".join(ps))
+        lines.append(head + "\n" + "\n".join(b) + "\n  " + ex(ps + ["g0", "g1"], 2) + "\n};")
+        fns.append(("f%d" % k, len(ps)))
+    lines += body(["g0", "g1"], "", 0, False, False)
+    lines.append(rng.pick([ex(["g0", "g1"], 3), cond(["g0", "g1"], 2), "[g0, g1][0]" if rng.chance(1, 8) else ex(["g0", "g1"], 2)]))
+    return "\n".join(lines)
 
 
 def report(res, r, kind, detail, label):
     def still(src):
-        k, _ = diff.classify(diff.one(src))
+        k, _ = diff.classify(diff.one(src, per_request_timeout=20.0))
         return k == kind
     src = r["src"]
     small = diff.shrink_lines(src, still, max_rounds=60) if len(src) < 4000 else src
@@ -85,6 +177,11 @@ def run(res, tier, rng, table_diffs=()):
                 report(res, r, kind, detail, label)
             else:
                 res.count("unreported-" + kind)
+    # how much of what was compared lies inside the fragment the simulation theorem covers (proved-sound check `SimF.inFragment`)
+    fr = core.model(["fragment " + core.hx(c[1]) for c in cs])
+    for (label, _), a in zip(cs, fr):
+        res.count("theorem-fragment:" + a)
+        res.count("theorem-fragment:%s:%s" % (label, a))
     if table_diffs and not res.violations:
         res.violation("the model's tables differ from the code's", dict(kind="tables", diffs=list(table_diffs)[:10],
                                                                           unchecked="table correspondence"), no_input=True)
